@@ -1103,7 +1103,8 @@ int cif_container_get_value(
                             }
 
                             FAILURE_HANDLER(inner):
-                            free(temp);
+                            /* GET_VALUE_PROPS leaves a value that can be released normally, with whatever it had filled in */
+                            cif_value_free(temp);
                         }
 
                         sqlite3_reset(cif->get_value_stmt);
